@@ -478,6 +478,7 @@ class C05Refusals(Harness):
 class C05Data(Harness):
     prop = "C05"
     group = "data"
+    stubs = ("dask replaced (symbolic world) by the graph protocol stub of C17 for the one `chunks-N2-dask` instance; every witness is replayed with the real dask",)
     bounds_doc = "h1(A)+h1(B) vs the reference over A and B together (|A|<=2, |B|=1, M=2 shared edges); chunk invariance: sum of adaptive fixed-width h1 over every split of N<=3 values into 2 chunks equals h1 of all values (values within +-2 widths)"
 
     def instances(self, tier):
@@ -486,6 +487,8 @@ class C05Data(Harness):
         for N in ((2,) if tier == "quick" else (2, 3)):
             for cut in range(1, N):
                 yield f"chunks-N{N}-cut{cut}", dict(mode="chunks", N=N, cut=cut)
+        # the dask helper (chunked array, per-chunk histograms summed by dask's reduction; `adaptive` not passed by the caller)
+        yield "chunks-N2-dask", dict(mode="chunks", N=2, cut=1, dask=True)
 
     def declare(self, cx, p):
         if p["mode"] == "fixed":
@@ -511,8 +514,15 @@ class C05Data(Harness):
         v = list(x["v"])
         c = p["cut"]
         parts = [v[:c], v[c:]]
-        hs = [h1(np.asarray(pt, dtype=float), "fixed_width", bin_width=x["w"], adaptive=True) for pt in parts]
-        r = E.attempt(lambda: sum(hs))
+        if p.get("dask"):
+            dask = E.mod("dask")
+            E.mod("dask.array")
+            cd = E.mod("physt.compat.dask")
+            darr = dask.array.from_array(np.asarray(v, dtype=float), chunks=c)
+            r = E.attempt(cd.h1, darr, "fixed_width", bin_width=x["w"])
+        else:
+            hs = [h1(np.asarray(pt, dtype=float), "fixed_width", bin_width=x["w"], adaptive=True) for pt in parts]
+            r = E.attempt(lambda: sum(hs))
         whole = h1(np.asarray(v, dtype=float), "fixed_width", bin_width=x["w"], adaptive=True)
         obs = {"whole": snap1d(E, whole)}
         obs["sum"] = snap1d(E, r) if not isinstance(r, Raised) else {"raised": r}
